@@ -9,11 +9,11 @@ u32 _ZSt19uncaught_exceptionsv(void) { return 0; }
 #ifndef NPOOL
 #define NPOOL 2
 #endif
-struct { struct S_class_tbb__detail__r1__context_list l; u8 pad[128]; } vp_ctxlist_obj __attribute__((aligned(128))); int vp_ctxlist_used;
+struct { struct S_class_tbb__detail__r1__context_list l; u8 pad[256 - sizeof(struct S_class_tbb__detail__r1__context_list)]; } vp_ctxlist_obj __attribute__((aligned(128))); int vp_ctxlist_used;
 struct S_class_tbb__detail__d1__task* vp_pool[NPOOL][64] __attribute__((aligned(128))); int vp_pool_used;
 u8* _ZN3tbb6detail2r122cache_aligned_allocateEm(u64 n) {
   if (n == 512) { VP_ASSERT(vp_pool_used < NPOOL, "VP bound: task pools"); return (u8*)vp_pool[vp_pool_used++]; }
-  if (n == 256) { VP_ASSERT(sizeof(vp_ctxlist_obj) <= 256, "layout"); VP_ASSERT(!vp_ctxlist_used, "VP bound: one context_list"); vp_ctxlist_used = 1; return (u8*)&vp_ctxlist_obj; }   /* thread_data's context_list: typed */
+  if (n == 256) { VP_ASSERT(sizeof(vp_ctxlist_obj) == 256, "layout"); VP_ASSERT(!vp_ctxlist_used, "VP bound: one context_list"); vp_ctxlist_used = 1; return (u8*)&vp_ctxlist_obj; }   /* thread_data's context_list: typed */
   VP_ASSERT(n <= 64, "VP bound: cache_aligned_allocate larger than expected in this scenario");
   u8* p = malloc(n); __CPROVER_assume(p != 0); return p; }
 void _ZN3tbb6detail2r124cache_aligned_deallocateEPv(u8* p) {
